@@ -11,6 +11,7 @@ C07 ...).  This module is the ONE place where
   * the laws the theorems assume of `puny` are evaluated on the real decoder (`failures`):
       PunyLaws   (Lemmas/Canonicalize.lean)   no_dot, stable
       PunyClean  (Lemmas/CanonRoundTrip.lean) clean, nonempty
+      PunyCase   (Props/C04.lean)            the decoder ignores the ASCII letter case of its label
       IdnaLaws   (Lemmas/Canonicalize.lean)   same_name (the decoded label has the ACE spelling
                  of the label it was given: decoding never changes the NAME), ace_lower (a law
                  of the reference encoder)
@@ -31,6 +32,7 @@ import stringprep
 import unicodedata
 
 GROUPS = ("PunyLaws", "PunyClean", "IdnaLaws")
+ALL_GROUPS = GROUPS + ("PunyCase",)
 IDEOGRAPHIC_FULL_STOP = "\u3002"
 # RFC 3490 3.1: the characters IDNA reads as label separators, next to '.'
 IDNA_DOTS = ["\u3002", "\uff0e", "\uff61"]
@@ -116,6 +118,10 @@ def label_failures(x, d, groups=GROUPS):
                 break
         if x and not d:
             out.append(("PunyClean", "nonempty", "%r -> ''" % (x,)))
+    if "PunyCase" in groups:
+        dl = decode_label(ascii_lower(x))
+        if ascii_lower(dl) != ascii_lower(d):
+            out.append(("PunyCase", "case", "%r -> %r but %r -> %r" % (x, d, ascii_lower(x), dl)))
     if "IdnaLaws" in groups:
         if ace_label(d) != ace_label(x):
             out.append(("IdnaLaws", "same_name", "%r -> %r, whose ASCII-compatible spelling is %r" % (x, d, ace_label(d))))
